@@ -37,7 +37,7 @@ def run(tier: str) -> int:
     scs = ec.el_scenarios(tier)
     if quick:
         total, distinct = ec.conc_check(ck, scs, tier, "EventLoopTrace", ec.EL_TRACE_CONSTS, ec.EL_INVS, "evloop-conc",
-                                        bound=2, per_level=(1, 30, 16, 4), nrandom=5, procs=8)
+                                        bound=2, per_level=(1, 24, 12, 3), nrandom=4, procs=8)
     else:
         total, distinct = ec.conc_check(ck, scs, tier, "EventLoopTrace", ec.EL_TRACE_CONSTS, ec.EL_INVS, "evloop-conc",
                                         bound=3, per_level=(1, 400, 500, 300, 100), nrandom=200, procs=8)
